@@ -120,7 +120,9 @@ func TestC19(t *testing.T) {
 	for i, a := range strings.Split(strings.TrimPrefix(outs[0], "R "), ",") {
 		modelAck[codes[i]] = a == "a"
 	}
-	payloads := []string{`{"a":1}`, `"text with <html> & unicode é"`, `[1,2,{"n":12345678901234567890}]`, `{"nested":{"deep":[null,true]}}`, `{"n":0}`}
+	payloads := []string{`{"a":1}`, `"text with <html> & unicode é"`, `[1,2,{"n":12345678901234567890}]`, `{"nested":{"deep":[null,true]}}`, `{"n":0}`,
+		// payloads whose base64 uses the two characters in which the standard and the URL-safe alphabet differ
+		`{"q":">>>~~~","r":"??>"}`, `{"name":"Zoë ÿ"}`, `{"a":"?","b":"??","c":"???"}`}
 	var batches []string
 	var trajectory []int
 	disagreements := 0
@@ -168,6 +170,9 @@ func TestC19(t *testing.T) {
 			}
 			// envelope
 			data, derr := base64.StdEncoding.DecodeString(req.body.Message.Data)
+			if derr == nil && req.body.Message.Data != base64.StdEncoding.EncodeToString(data) {
+				derr = fmt.Errorf("message.data is not canonical standard base64")
+			}
 			pt, _ := time.Parse(time.RFC3339Nano, req.body.Message.PublishTime)
 			if derr != nil || !jsonEqual(string(data), spec.Payload) || !attrsEqual(req.body.Message.Attributes, spec.Attrs) ||
 				req.body.Message.MessageID != msgID.String() || req.body.Message.OrderingKey != spec.Key || req.body.Subscription != sub.Name ||
